@@ -152,6 +152,12 @@ protected:
    */
   void edgeMustExist_(const Edge& edge, std::string name = "") const;
 
+  /**
+   * Check that there is no relation nodeA -> nodeB yet (nodeA - nodeB if undirected).
+   * If there is one, throw an exception.
+   */
+  void relationMustNotExist_(const Node& nodeA, const Node& nodeB) const;
+
 private:
   /**
    * Private version of getIncomingNeighbors or getOutgoingNeighbors.
